@@ -218,3 +218,68 @@ Example C14_example_holds :
   faithful c = Some (SSet "u8" 3 [VInt "u8" 1; VInt "u8" 2; VInt "u8" 3]).
 Proof. cbv zeta. repeat split; vm_compute; reflexivity. Qed.
 Print Assumptions C14_example_holds.
+
+(* ---- the binary set functions as they are in the source (regenerated table) --------------------------------------
+   Gen/SetOpArms.v is rewritten from machines/set/src/{operations,relations}/*.rs by translators/setop_arms.py on every run
+   of this check; the statements below are about THAT table, so a slip in one operand-form arm or in the solve() of ONE
+   of the copies breaks them whether or not a generated case reaches it.  Definitions: Proofs/SetOpArmsP.v, Proofs/SrcArmsP.v. *)
+From MechV Require Import Model.SrcArms Proofs.SrcArmsP Gen.SetOpArms Proofs.SetOpArmsP.
+
+(* the translator recognised every construct it was pointed at; powerset is the only compiled-in module it does not model *)
+Theorem C14_setops_source_fully_read :
+  so_unrecognised = [] /\
+  map (fun e : String.string * String.string * String.string => (fst (fst e), snd (fst e))) so_other = [("operations", "powerset")]%string.
+Proof. exact so_nothing_unrecognised. Qed.
+Print Assumptions C14_setops_source_fully_read.
+
+(* every compile() (5 operations, 7 relations) binds lhs, rhs = arguments[0], [1] and calls its own kernel-level function
+   with (lhs, rhs) directly and in each of the three operand-form arms, unwrapping every reference *)
+Theorem C14_setops_compile_arms_regular : forallb so_compile_ok so_compile = true /\ so_compile_complete = true.
+Proof. exact so_compile_regular. Qed.
+Print Assumptions C14_setops_compile_arms_regular.
+
+(* meaning: whatever mixture of plain values and references the operands are, the kernel-level function receives the
+   contents of (lhs, rhs) in this order *)
+Theorem C14_setops_compile_applies_kernel_to_lhs_rhs :
+  forall (A R : Type) (c : cfn) (g m : String.string) (k : String.string -> list (rval A) -> option R) (a b : rval A),
+    In c so_compile -> cf_tag c = [g; m] ->
+    (forall f vs, existsb is_ref vs = true -> k f vs = None) ->
+    exists r f, resolve_cfn c = Some r /\ scallee_of g m = Some f /\ compile_model r k [a; b] = k f [strip a; strip b].
+Proof. exact so_compile_applies_kernel_to_lhs_rhs. Qed.
+Print Assumptions C14_setops_compile_applies_kernel_to_lhs_rhs.
+
+(* kernel-level functions (struct built with lhs <- lhs, rhs <- rhs; element-kind guard for union / symmetric difference
+   only; allocation of the result) and kernel structs (field order, new(), solve() = the reference body of the function,
+   out(), operand order of the emitted instruction) *)
+Theorem C14_setops_tables_regular :
+  forallb kfn_ok so_kernel_fns = true /\ forallb SetOpArmsP.kernel_ok so_kernels = true /\ tables_complete = true.
+Proof. exact so_tables_regular. Qed.
+Print Assumptions C14_setops_tables_regular.
+
+(* every operation recomputes the metadata of its result from the result: num_elements = len, kind = the kind of an element
+   of the result (Empty for the empty set) — not the kind the result was allocated with (lhs' kind) *)
+Theorem C14_setops_result_kind_from_result_elements :
+  forall e : SetOpArmsP.kernel_entry, In e so_kernels ->
+    let '(g, _, _, _, _, (_, sv), _, _) := e in g = "operations"%string -> ends_with_metadata sv = true.
+Proof. exact so_result_kind_from_result_elements. Qed.
+Print Assumptions C14_setops_result_kind_from_result_elements.
+
+(* the extracted solve() of union / intersection / difference / symmetric difference, read as a term, is the faithful model's
+   [Fop] of THAT operation applied to (self.lhs, self.rhs) in this order (A ∖ B, never B ∖ A) *)
+Theorem C14_operation_solve_is_Fop :
+  forall e : SetOpArmsP.kernel_entry, In e so_kernels ->
+    let '(g, m, _, _, _, (_, sv), _, _) := e in
+    forall o, g = "operations"%string -> setop_of m = Some o ->
+      forall lhs rhs : list tval, denote_solve_op lhs rhs sv = Some (Fop o lhs rhs).
+Proof. exact operation_solve_is_Fop. Qed.
+Print Assumptions C14_operation_solve_is_Fop.
+
+(* the extracted boolean expression of subset / proper subset / superset / proper superset, evaluated as a term, is the
+   faithful model's [Frel] of THAT relation on (self.lhs, self.rhs) *)
+Theorem C14_relation_solve_is_Frel :
+  forall e : SetOpArmsP.kernel_entry, In e so_kernels ->
+    let '(g, m, _, _, _, (_, sv), _, _) := e in
+    forall r, g = "relations"%string -> relop_of m = Some r ->
+      forall lhs rhs : list tval, denote_solve_rel lhs rhs sv = Some (Frel r lhs rhs).
+Proof. exact relation_solve_is_Frel. Qed.
+Print Assumptions C14_relation_solve_is_Frel.
